@@ -47,4 +47,15 @@ META = {
         design_ref="DESIGN.md §4 C12",
         note="Scripted collaborators; context expiry at quiescence; 2-3 API calls per run.",
     ),
+    "C14": dict(
+        text="Bounded model checking with the thread schedule as a symbolic variable: the real msg.Box executed by the engine's scheduler, context switches before every acquire-type operation chosen by the solver "
+             "under a preemption bound; exactly-once and order asserted per message, separately for receive calls that overlap the first Send (where the tree has a known, recorded defect) and for those that do not.",
+        design_ref="DESIGN.md §4 C14",
+        note="2-3 goroutines, 2-3 messages, <= 2 preemptions quick (<= 4 thorough); counterexample schedules are replayed natively through a generated yield-point copy of msgbox.go (go test -overlay).",
+    ),
+    "C15": dict(
+        text="Bounded model checking of the real msg.Box, sequential, with the operation sequence, senders, topics, epoch jumps and wall clock symbolic; a ghost model decides which messages were within the limits; bookkeeping maps read in-package.",
+        design_ref="DESIGN.md §4 C15",
+        note="k <= 4 operations quick (5 thorough), limits 1-2 topics per sender, expiry 4 epochs; ticker replaced by direct writes of the epoch counter.",
+    ),
 }
